@@ -29,6 +29,7 @@ def run(ctx, rep):
     choke_point(ctx.prog, rep)
     proportional(ctx.prog, rep)
     resize_guard(ctx.prog, rep)
+    limits_count_new_item(ctx.prog, rep)
 
 
 def choke_point(prog, rep):
@@ -120,3 +121,33 @@ def resize_guard(prog, rep):
         rep.ob(rule, "len(diff) == len(out) at apply_item_delta", ok,
                "the update of an existing item with a different size is refused before apply_item_delta" if ok else
                "apply_item_delta can be reached with len(diff) != len(out): its assert panics on a resizing delta", b.loc(t.get("ln")))
+
+
+def limits_count_new_item(prog, rep):
+    """R2b: the two limit tests of prepare_item_vacant are about the snapshot *after* the insertion: the item count tested is
+    num_items + 1 and the size tested is computed from the same `offset + size` that becomes the end of the new item's range"""
+    rule = "R2b-limits-count-the-new-item"
+    S_ = "libtw2_snapshot::snap::"
+    b = prog.one(S_ + "RawSnap::prepare_item_vacant")
+    ir = IR(b)
+    calls = [(bi, t) for bi, t in b.calls() if (t.get("callee") or "") == S_ + "RawSnap::serialized_ints_size"]
+    rep.floor(rule, len(calls), 1, "serialized_ints_size(..) in prepare_item_vacant")
+    end = None
+    for bi in sorted(b.live):
+        for si, st in enumerate(b.blocks[bi]["st"]):
+            if st["k"] == "assign" and st["r"]["k"] == "agg" and (st["r"].get("adt") or "").endswith("ops::Range"):
+                e = ir.rvalue(st["r"], (bi, si))
+                end = dict(e[4]).get("end")
+    x = end
+    while x is not None and x[0] == "call" and "Cast" in x[1] and x[2]:
+        x = x[2][0]
+    for bi, t in calls:
+        e = ir.call_expr(bi, t)
+        a0, a1 = strip_sites(e[2][0]), strip_sites(e[2][1])
+        ok1 = x is not None and a1 == strip_sites(x)
+        ok0 = a0[0] == "bin" and a0[1] == "Add" and a0[3][0] == "c" and a0[3][1] == 1
+        rep.ob(rule, "size test uses the end of the new item", ok1,
+               "serialized_ints_size(.., %s) and the inserted range ends at the same value" % show(a1) if ok1 else
+               "the size limit is tested on `%s` but the new item ends at `%s`: the item being inserted is not counted" % (show(a1), show(strip_sites(x)) if x else "?"),
+               b.loc(t.get("ln")))
+        rep.ob(rule, "count test includes the new item", ok0, "serialized_ints_size(%s, ..)" % show(a0), b.loc(t.get("ln")))
